@@ -67,9 +67,10 @@ def main():
                 vacuity=("ok", "SyntaxError"))
 
     py, xs, lits = seeds.all_seeds()
-    texts = py + xs + [t for t in lits if len(t) < 120]
+    from checks.c11 import LAYOUT_ERR_SEEDS
+    texts = LAYOUT_ERR_SEEDS + py + xs + [t for t in lits if len(t) < 120]
     if chk.quick:
-        texts = seeds.sample(chk.rng, py, 25) + seeds.sample(chk.rng, xs, 30) + seeds.sample(chk.rng, lits, 25)
+        texts = LAYOUT_ERR_SEEDS + seeds.sample(chk.rng, py, 25) + seeds.sample(chk.rng, xs, 30) + seeds.sample(chk.rng, lits, 25)
         pairs = hole_pairs(chk, texts, 4, 100)
     else:
         pairs = hole_pairs(chk, texts, 0, 160)
